@@ -167,7 +167,7 @@ class load_network_malformed:
 from pyvc.spec import json_file
 
 
-@contract('CircuitCalculator.Network.loaders.load_network_from_json', props=P, bounded='description lists of length 2')
+@contract('CircuitCalculator.Network.loaders.load_network_from_json', props=P, bounded='description lists of length 2', search='wide')
 class load_network_from_json_file:
     """The file loader returns exactly what load_network returns for the document stored in the file."""
     def inputs(g):
